@@ -173,7 +173,7 @@ class Conv:
         tr = self.model_trace()
         if not tr:
             return None, None, "no-trace"
-        end = next((l for l in tr if l.startswith("END")), None)
+        end = next((l for l in tr if l.startswith("END ")), None)
         state, q = R.client_waiting(tr)
         return state, q, end
 
